@@ -36,6 +36,8 @@ type bareResult struct {
 	CtlCalls       int
 	EarlyStop      bool
 	TwoControllers bool
+	Handled        int // items whose slot said "finished" when the caller read the results after normal termination
+	ResultsRead    bool
 }
 
 // runPrioBare plays a PrioRealScenario without any instrumentation. It decides nothing itself.
@@ -56,6 +58,28 @@ func runPrioBare(sc PrioRealScenario) bareResult {
 		c := make(chan PItem, in.Cap)
 		ins = append(ins, inp{in.P, c, in.N})
 		inputs[in.P] = c
+	}
+	// user data of the handlers: one plain (non-atomic) slot per item, written when the handler
+	// starts and when it has finished with the item, read by the caller once the discipline
+	// has terminated on its own (documented completion point: everything delivered has been
+	// handled and released by then). A discipline that reports termination while an item is
+	// still being handled makes this a race on user-visible data.
+	maxN := 1
+	for _, in := range sc.Inputs {
+		maxN = max(maxN, in.N)
+	}
+	for _, c := range sc.Ctl {
+		maxN = max(maxN, c.N)
+	}
+	results := make([][]int8, len(sc.Inputs)+len(sc.Ctl)+1)
+	for i := range results {
+		results[i] = make([]int8, maxN+1)
+	}
+	slot := func(it PItem) *int8 {
+		if it.Ch >= 0 && it.Ch < len(results) && it.Seq >= 0 && it.Seq < len(results[it.Ch]) {
+			return &results[it.Ch][it.Seq]
+		}
+		return new(int8)
 	}
 	hold := func(r *rand.Rand) {
 		if sc.HoldUs > 0 {
@@ -87,7 +111,10 @@ func runPrioBare(sc PrioRealScenario) bareResult {
 				defer hwg.Done()
 				r := rand.New(rand.NewPCG(seed, 1))
 				for x := range d.Output() {
+					p := slot(x.Item)
+					*p = 1
 					hold(r)
+					*p = 2
 					d.Release(x.Priority)
 				}
 			}(sc.Seed + uint64(i))
@@ -111,7 +138,10 @@ func runPrioBare(sc PrioRealScenario) bareResult {
 				for {
 					select {
 					case x := <-out:
+						p := slot(x.Item)
+						*p = 1
 						hold(r)
+						*p = 2
 						select {
 						case fb <- x.Priority:
 						case <-done:
@@ -126,10 +156,13 @@ func runPrioBare(sc PrioRealScenario) bareResult {
 	case "v2s":
 		holdUs := sc.HoldUs
 		handle := func(it PItem) {
-			// only the argument and the stack
+			// only the argument, the stack and the item's own slot
+			p := slot(it)
+			*p = 1
 			if holdUs > 0 {
 				time.Sleep(time.Duration((it.Seq*7919+it.Ch*104729)%(holdUs+1)) * time.Microsecond)
 			}
+			*p = 2
 		}
 		d, err := simple.New(simple.Opts[PItem]{Divider: divider.Divider(div), Handle: handle, HandlersQuantity: sc.H, Inputs: inputs})
 		if err != nil {
@@ -140,12 +173,15 @@ func runPrioBare(sc PrioRealScenario) bareResult {
 	case "v1s":
 		holdUs := sc.HoldUs
 		handle := func(hctx context.Context, it PItem) {
+			p := slot(it)
+			*p = 1
 			if holdUs > 0 {
 				select {
 				case <-time.After(time.Duration((it.Seq*7919+it.Ch*104729)%(holdUs+1)) * time.Microsecond):
 				case <-hctx.Done():
 				}
 			}
+			*p = 2
 		}
 		d, err := v1prio.NewSimple(v1prio.SimpleOpts[PItem]{Ctx: ctx, Divider: asV1(div), Handle: handle, HandlersQuantity: sc.H, Inputs: inputs})
 		if err != nil {
@@ -350,6 +386,17 @@ wait:
 			res.Stuck = "the discipline did not terminate within 60s of real time"
 			break wait
 		}
+	}
+	if res.Terminated && !roughStop && first < 0 {
+		// the discipline ended on its own: the caller looks at what its handlers produced
+		for _, row := range results {
+			for _, v := range row {
+				if v == 2 {
+					res.Handled++
+				}
+			}
+		}
+		res.ResultsRead = true
 	}
 	close(done)
 	close(mapDone)
